@@ -431,7 +431,8 @@ def hotspotIdealToCore : Rec → Rec
     [id, res, mt, cb, pidx, pkey, thr, mq, burst, dur, cap, .smap (parseSpecific goStrConv its)]
   | r => r
 
-/-- the converter the property describes: `null` elements are nil rules for every module, nothing is dropped -/
+/-- the converter the property describes: the hotspot wire format read with the `paramKey` of `hotspot.Rule` (the four
+    other parsers are taken as they are) -/
 def convIdeal (md : ModDef) (bytes : List Nat) : Option (Conv (WireList Rec)) :=
   if !md.hotspot then convOf md bytes else
   match convOf md bytes with
@@ -441,8 +442,7 @@ def convIdeal (md : ModDef) (bytes : List Nat) : Option (Conv (WireList Rec)) :=
     match parseDoc bytes with
     | some tree =>
       (match convPlain hotspotIdealTags false tree with
-       | .ok (some (some xs)) => some (.ok (some (some (xs.map fun o => o.map hotspotIdealToCore))))
-       | .ok (some none) => some (.ok (some (some [])))
+       | .ok (some l) => some (.ok (some (some (l.elems.map fun r => some (hotspotIdealToCore r)))))
        | c => some c)
     | none => none
 
@@ -509,14 +509,12 @@ def deliverMod (md : ModDef) (ms : ModSt) (bytes : List Nat) : ModSt × Option (
       | .ok v =>
         let vs := validElems md.mo.valid v
         let hasKey := md.hotspot && (match v with | some l => l.elems.any (fun r => gs r 5 != "") | none => false)
-        let isPanic := match c with | .panic => true | _ => false
         (vs.map md.mo.norm,
-          if isPanic then "null-element-swallowed" else if hasKey then "hotspot-paramkey-dropped" else ms.cause)
+          if hasKey then "hotspot-paramkey-dropped" else ms.cause)
       | _ =>
         let asisOk := match c with | .ok _ => true | _ => false
-        let asisPanic := match c with | .panic => true | _ => false
-        -- a wrongly typed `paramKey` is not even looked at; a recovered converter panic returns nil
-        (ms.ideal, if asisPanic then "null-element-swallowed" else if md.hotspot && asisOk then "hotspot-paramkey-dropped" else ms.cause)
+        -- a wrongly typed `paramKey` is not even looked at
+        (ms.ideal, if md.hotspot && asisOk then "hotspot-paramkey-dropped" else ms.cause)
     let retIdeal := match ci with | .ok _ => Ret.nil | _ => Ret.err
     ({ ms with hm := hm', ideal := ideal', hmI := hmI', cause := cause' }, some (ret, retIdeal))
   | _, _ => ({ ms with lost := true }, none)
